@@ -290,6 +290,46 @@ func timeText(style int, d time.Duration) string {
 	return d.Truncate(time.Second).String()
 }
 
+// readTimeText parses a duration printed in one of the four time styles back; gran is what the
+// style cannot show (seconds, or a minute for HH:MM).
+func readTimeText(style int, txt string) (d, gran time.Duration, ok bool) {
+	txt = strings.TrimSpace(txt)
+	num := func(s string) (int64, bool) {
+		n, err := strconv.ParseInt(s, 10, 64)
+		return n, err == nil && n >= 0
+	}
+	parts := strings.Split(txt, ":")
+	switch style % 4 {
+	case 0:
+		v, err := time.ParseDuration(txt)
+		return v, time.Second, err == nil
+	case 1:
+		if len(parts) != 3 {
+			return 0, 0, false
+		}
+	case 2:
+		if len(parts) != 2 {
+			return 0, 0, false
+		}
+		hh, ok1 := num(parts[0])
+		mm, ok2 := num(parts[1])
+		return time.Duration(hh)*time.Hour + time.Duration(mm)*time.Minute, time.Minute, ok1 && ok2 && mm < 60
+	case 3:
+		if len(parts) == 2 {
+			mm, ok1 := num(parts[0])
+			ss, ok2 := num(parts[1])
+			return time.Duration(mm)*time.Minute + time.Duration(ss)*time.Second, time.Second, ok1 && ok2 && ss < 60
+		}
+		if len(parts) != 3 {
+			return 0, 0, false
+		}
+	}
+	hh, ok1 := num(parts[0])
+	mm, ok2 := num(parts[1])
+	ss, ok3 := num(parts[2])
+	return time.Duration(hh)*time.Hour + time.Duration(mm)*time.Minute + time.Duration(ss)*time.Second, time.Second, ok1 && ok2 && ok3 && mm < 60 && ss < 60
+}
+
 var sizeRe = regexp.MustCompile(`^(-?[0-9.]+(?:e[+-]?\d+)?) ?([KMGT]i?B|b)?(/s)?$`)
 
 var unitMul = map[string]float64{"": 1, "b": 1, "KiB": 1 << 10, "MiB": 1 << 20, "GiB": 1 << 30, "TiB": 1 << 40, "KB": 1e3, "MB": 1e6, "GB": 1e9, "TB": 1e12}
@@ -486,6 +526,26 @@ func judgeC20(hi *Hist) []*Violation {
 						add("speed-value", "frame %d: bar %d shows average speed %q (= %g) but current/elapsed is %g..%g (current %d, elapsed %v)", fi, g.Bar, txt, val, want, want2, spy.Current, elapsedLo)
 					}
 				case h.DecAvgETA:
+					if hasT0 && !done && spy.Total > 1000 && spy.Current > 0 && spy.Current <= spy.Total && elapsedLo > 0 {
+						// byte-sized totals: the library multiplies the remaining count by the rounded time per
+						// item, so the printed value is within half a nanosecond per item of the true
+						// proportion; judged only where that is below 1 % (>= 50 ns per item)
+						perItem := float64(elapsedLo) / float64(spy.Current)
+						want := float64(elapsedLo) * float64(spy.Total-spy.Current) / float64(spy.Current)
+						if perItem >= 50 && want < float64(59*time.Hour) {
+							got, gran, ok := readTimeText(spec.Style, txt)
+							if !ok {
+								add("eta-unreadable", "frame %d: bar %d shows average ETA %q (style %d)", fi, g.Bar, txt, spec.Style%4)
+								break
+							}
+							note("c20_eta_large_checked")
+							tol := 0.011*want + float64(gran) + float64(elapsedHi-elapsedLo)*float64(spy.Total-spy.Current)/float64(spy.Current) + 2e9
+							if math.Abs(float64(got)-want) > tol {
+								add("eta-value", "frame %d: bar %d shows average ETA %q (= %v) but elapsed x remaining / current is %v (current %d total %d elapsed %v)", fi, g.Bar, txt, got, time.Duration(want), spy.Current, spy.Total, elapsedLo)
+							}
+						}
+						break
+					}
 					if !hasT0 || done || spy.Total > 1000 {
 						break
 					}
